@@ -317,6 +317,34 @@ def _hoist_else(stmts):
     return out
 
 
+def _tail_else_to_continue(stmts):
+    """In a loop body nothing follows the last statement, so  `...; if (c) A else R`  ==  `...; if (c) { A; continue; } R`  (the
+    form `_hoist_else` produces from an early `continue`).  Applied to the tail of loop bodies on both sides."""
+    if not stmts:
+        return stmts
+    last = stmts[-1]
+    if last.get("kind") == "IfStmt" and last.get("hasElse"):
+        cond, then, els = if_parts(last)
+        if els is not None and not _no_fall(then):
+            tst = kids(then) if then.get("kind") == "CompoundStmt" else [then]
+            then2 = {"kind": "CompoundStmt", "inner": list(tst) + [{"kind": "ContinueStmt"}], "line": then.get("line"), "file": then.get("file")}
+            s2 = dict(last)
+            s2["hasElse"] = False
+            s2["inner"] = [then2 if x is then else x for x in kids(last) if x is not els]
+            rest = kids(els) if els.get("kind") == "CompoundStmt" else [els]
+            return stmts[:-1] + [s2] + _tail_else_to_continue(_hoist_else(list(rest)))
+    if last.get("kind") == "IfStmt" and not last.get("hasElse"):
+        # `if (c) { A; continue; }` as the very last statement: the continue is redundant
+        cond, then, els = if_parts(last)
+        tst = kids(then) if then.get("kind") == "CompoundStmt" else [then]
+        if tst and tst[-1].get("kind") == "ContinueStmt":
+            pass
+    return stmts
+
+
+LOOP_CTX = ("for-body", "ForStmt", "WhileStmt", "DoStmt", "CXXForRangeStmt")
+
+
 class Diff(Exception):
     def __init__(self, a, b, why):
         self.a, self.b, self.why = a, b, why
@@ -344,6 +372,8 @@ class Aligner:
     def same_list(self, la, lb, ctx):
         la = _hoist_else([s for s in la if s])
         lb = _hoist_else([s for s in lb if s])
+        if ctx in LOOP_CTX:
+            la, lb = _tail_else_to_continue(la), _tail_else_to_continue(lb)
         if self.erase is not None:
             lb = self.erase.normalise(lb)
         lb = [s for s in lb if not self.drop_stmt(s)]
